@@ -166,14 +166,22 @@ SAFE = [  # expressions whose python value is a fixpoint of the engine's re-inte
     'hex(255) + "h"', 'any(xs)', 'all(xs)', 'repr(x) + "."', 'max(len(x), len(xs))', "sorted(xs)[0] + '#'",
 ]
 SAFE_INTERP = ['seen {x} and {n}', '{x.upper()}!', 'v={len(xs)};', '<{xs[0]}{xs[1]}>', '{x}-{n}-{x}']
-# the engine re-interprets a str result; these document the consequence (value differs from Python's)
-REEVAL = [('{n}', 'f'), ('{n}+1', 'f'), ('<{n}>', 'f'), ('n + "+1"', 'e'), ('str(len(xs))', 'e'), ('repr(len(x))', 'e')]
+# NOTE the engine evaluates constants in several passes ON PURPOSE (tests/grammar/semantics_test.py::
+# test_constant_math / test_constant_deep_eval pin `{a} / {b}` -> '7 / 2' -> 3.5), so an interpolated string is
+# evaluated again and `{n}` gives 42, not '42'.  That is not judged here; what is judged is that text which
+# reaches evaluation that way (INJECT: the parsed INPUT) stays inside the sandbox.
+# input text reaching the evaluator through `{x}`: no forbidden event, no exit, only TatSu exceptions
+INJECT = ['1+1', 'len(x)', "open('/etc/hostname').read()", 'exit()', "__import__('os').system('true')", 'x.__class__',
+          "'{0.__class__}'.format(x)", 'plain text', '42']
 
 SHADOW = [  # (names bound before the constant, expr)
     ('open', "open('/etc/hostname')"), ('len', 'len(len)'), ('len', 'len'), ('print', 'print'), ('eval', "eval('1')"),
     ('exit', 'exit()'), ('sorted', 'sorted(xs)'), ('max', 'max + "!"'), ('input', 'input'), ('x', 'x.upper() + "."'),
     ('n', 'len(n)'), ('min', 'min(xs)'), ('exec', 'exec'), ('compile', 'compile'), ('getattr', "getattr(x, 'upper')"),
 ]
+
+
+INJECT_GRAMMAR = '@@grammar :: S\nstart = x:/.+/ v:`{x}` $ ;\n'
 
 
 def gtext(expr, alert=False, shadow=None):
@@ -192,17 +200,18 @@ def all_cases(tier):
     for c in builtin_cases() + other_cases():
         cases.append(dict(c, routes=['helper', 'model', 'alert', 'gen']))
     for e in SAFE:
-        cases.append(dict(kind='safe', expr=e, routes=['helper', 'model', 'alert', 'gen']))
+        # in a grammar the constant text itself is an f-string body, so explicit f'..' goes through the helper only
+        cases.append(dict(kind='safe', expr=e, routes=['helper'] if e.startswith("f'") else ['helper', 'model', 'alert', 'gen']))
+    for text in INJECT:
+        cases.append(dict(kind='inject', expr='{x}', input=text, routes=['model', 'gen']))
     for e in SAFE_INTERP:
         cases.append(dict(kind='safe-interp', expr=e, routes=['model', 'alert', 'gen']))
-    for e, mode in REEVAL:
-        cases.append(dict(kind='reeval', expr=e, mode=mode, routes=['model', 'gen']))
     for nm, e in SHADOW:
         cases.append(dict(kind='shadow', expr=e, shadow=nm, routes=['helper', 'model', 'gen']))
     if tier != 'quick':
         # every safe builtin as key= / element of map over forbidden names, and every forbidden name in every
         # syntactic position of a call
-        for nm in sorted(FORBIDDEN & set(dir(builtins))):
+        for nm in sorted(n for n in dir(builtins) if callable(getattr(builtins, n)) and n.isidentifier()):
             for tmpl in ['({0})(x)', '[{0}][0](x)', '{0}.__call__(x)', 'list(map({0}, xs))', 'sorted(xs, key={0})',
                          '[len(x) for len in [{0}]]', "f'{{{0}(x)}}'", '(y := {0})(x)', 'x and {0}(x)', '{0}(x) if x else 0',
                          'max(xs, key={0})', 'next(iter({0}, x))', '{0}(*xs)', '{0}(**{{}})']:
@@ -248,7 +257,8 @@ def _hook(event, args):
             if event == 'open' and not inside:
                 # lazily loaded modules of the interpreter / tatsu itself (first use) are not evaluation
                 p = str(args[0]) if args else ''
-                if p.endswith(('.py', '.pyc', '.so')) or '/lib/python' in p or '__pycache__' in p:
+                # (also the interpreter looking up the source line "<string>" for a SyntaxError it reports)
+                if p.endswith(('.py', '.pyc', '.so')) or '/lib/python' in p or '__pycache__' in p or p.startswith('<'):
                     return
             a = tuple(repr(x)[:60] for x in args[:2])
             _STATE['events'].append([event, list(a), bool(inside)])
@@ -297,7 +307,7 @@ def _python_value(case):
     """what plain Python gives (only used for kinds safe / safe-interp / shadow)"""
     names = _names_for(case)
     e = case['expr']
-    if case['kind'] == 'safe-interp' or case.get('mode') == 'f':
+    if case['kind'] == 'safe-interp':
         e = 'f' + repr(e)
     try:
         return {'ok': True, 'repr': repr(eval(e, {'__builtins__': builtins}, dict(names)))[:300]}  # noqa: S307
@@ -321,7 +331,7 @@ def run_case(case, cache):
     expr = case['expr']
     names = _names_for(case)
     res = {'id': case['id']}
-    if case['kind'] in ('safe', 'safe-interp', 'shadow', 'reeval'):
+    if case['kind'] in ('safe', 'safe-interp', 'shadow'):
         res['python'] = _python_value(case)
     if route == 'helper':
         ctx = safeeval.safe_builtins() | names
@@ -332,6 +342,9 @@ def run_case(case, cache):
         res['feval'] = _outcome(lambda: safeeval.safe_eval(fexpr, dict(ctx)))
         return res
     g = gtext(expr, alert=(route == 'alert'), shadow=case.get('shadow'))
+    text = INPUT
+    if case['kind'] == 'inject':
+        g, text = INJECT_GRAMMAR, case['input']
     res['grammar'] = g
     key = (g, route == 'gen')
     try:
@@ -352,9 +365,9 @@ def run_case(case, cache):
 
     def parse():
         if route == 'gen':
-            ast = obj().parse(INPUT, parseinfo=True)
+            ast = obj().parse(text, parseinfo=True)
         else:
-            ast = obj.parse(INPUT, parseinfo=True)
+            ast = obj.parse(text, parseinfo=True)
         if route == 'alert':
             pi = ast.parseinfo
             return [a.message for a in pi.alerts]
@@ -459,7 +472,7 @@ def judge(case, r):
         how = {'model': 'tatsu.compile(grammar).parse(input)', 'alert': 'tatsu.compile(grammar).parse(input, parseinfo=True).parseinfo.alerts',
                'gen': 'exec(tatsu.to_python_sourcecode(grammar)); SParser().parse(input)'}[route]
         wit = {'route': route, 'expr': expr, 'grammar': r.get('grammar') or gtext(expr, route == 'alert', case.get('shadow')),
-               'input': INPUT, 'replay': how}
+               'input': case.get('input', INPUT), 'replay': how}
 
     def fail(cls, detail):
         fails.append(dict(witness=wit, detail=detail, cls=cls))
@@ -515,6 +528,15 @@ def judge(case, r):
         rep = shown.get('repr', '')
         if rep not in texts and any(m in rep for m in ('<class', '<built-in', '<method', "{'__", '__name__')):
             fail('dunder-reached-through-str-format', f'str.format field traversal exposes a dunder attribute: {rep[:120]}')
+    if kind == 'inject':
+        fails[:] = [f for f in fails if not f['cls'].startswith(('builtin-', 'forbidden-audit-event', 'systemexit-'))]  # judged here, by what happened
+        for k, o in outs:
+            if o.get('events'):
+                fail('input-text-evaluated-as-code', f'input {case["input"]!r} bound to x and interpolated by `{{x}}` is evaluated: '
+                     f'audit events {o["events"][:2]}; result {_short(o)}')
+        if 'SystemExit' in ev.get('chain', []):
+            fail('input-text-evaluated-as-code', f'input {case["input"]!r} interpolated by `{{x}}` raises SystemExit: {_short(ev)}')
+        return fails
     # values of safe expressions
     if kind in ('safe', 'safe-interp') and 'python' in r:
         py = r['python']
@@ -529,11 +551,6 @@ def judge(case, r):
             fail('harness-error', f'battery expression does not evaluate in python: {py}')
         elif got.get('out') != 'value' or got.get('repr') != want:
             fail('safe-expression-value-differs', f'python gives {want}, the sandbox route gives {_short(got)}')
-    if kind == 'reeval' and 'python' in r and r['python']['ok']:
-        if ev.get('out') != 'value' or ev.get('repr') != r['python']['repr']:
-            fail('interpolated-text-reevaluated-as-expression',
-                 f"python's f-string / expression value is {r['python']['repr']}; the engine re-interprets the resulting "
-                 f'string and gives {_short(ev)}')
     if kind == 'shadow' and 'python' in r and route != 'helper':
         py = r['python']
         if py['ok'] and ev.get('out') == 'value' and ev.get('repr') not in (py['repr'], repr(expr)):
